@@ -20,7 +20,7 @@ LEVEL = "fault_enumeration"
 RULE = (
     "scenarios {single optimizer step, single evaluator step, optimizer step followed by evaluator step, evaluator step "
     "followed by optimizer step, nested plan (outer optimizer, inner optimizer on the complementary variables), a BasicOptimizer "
-    "object with results and abort callbacks run three times} x "
+    "object with results and abort callbacks run three times in every history over {finishes, aborted at check 1/2, evaluator raises in call 0/1}} x "
     "{plain, evaluation failures leading to TOO_FEW_REALIZATIONS, max_functions stop} x {slsqp, nelder-mead}; every plan "
     "level carries two recording handlers (injected plan_handler plug-in) and two observers are subscribed to every event "
     "type. First the unaborted run is recorded, then the USER_ABORT is raised at EVERY (emission index, receiver) pair of "
@@ -342,58 +342,74 @@ def _abort_in_inner(out: dict[str, Any]) -> bool:
 
 
 def run_basic(case: dict[str, Any]) -> dict[str, Any]:
-    """BasicOptimizer: its callbacks are observers; each gets every event once, in every run of the same object."""
+    """BasicOptimizer: its callbacks are observers; each gets every event once, in every run of the same object -
+    whatever the earlier runs of that object did (finished, were aborted, or ended with an exception of the evaluator)."""
+    import itertools
+
     from ropt.plan import BasicOptimizer
 
     a = np.array(case["slopes"], dtype=np.float64).reshape(2, 1, 2)
-    ev = AffineEvaluator(a, np.zeros((2, 1)), quad=1.0)
-    if case["variant"] == "failures":
-        ev.fail = {(case["fail_call"], 0, -1): [("obj", 0)]}
     budget = case["budget"] if case["variant"] == "budget" else 6
     points = interesting = 0
-    reference: list[int] | None = None
-    for abort_at in [None, *range(1, case.get("basic_aborts", 4) + 1)]:
+    kinds = ["ok", "abort@1", "abort@2", "crash@0", "crash@1"]
+    histories = list(itertools.product(kinds, repeat=case.get("basic_runs", 3)))
+    if case.get("basic_history") is not None:
+        histories = [tuple(case["basic_history"])]
+    for history in histories:
+        ev = AffineEvaluator(a, np.zeros((2, 1)), quad=1.0)
         log: list[str] = []
-        checks = [0]
+        state = {"abort_at": None, "crash_at": None, "checks": 0, "base": 0, "started": 0}
 
-        def on_results(results: Any, log: list[str] = log) -> None:  # noqa: ANN401
+        def hook(call: int, variables: np.ndarray, context: Any, state: dict[str, Any] = state) -> None:  # noqa: ANN401, ARG001
+            state["started"] += 1
+            if state["crash_at"] is not None and call - state["base"] == state["crash_at"]:
+                msg = "injected evaluator crash"
+                raise RuntimeError(msg)
+
+        ev.hook = hook
+
+        def on_results(results: Any, log: list[str] = log) -> None:  # noqa: ANN401, ARG001
             log.append("results")
 
-        def want_abort(log: list[str] = log, checks: list[int] = checks, abort_at: int | None = abort_at) -> bool:
+        def want_abort(log: list[str] = log, state: dict[str, Any] = state) -> bool:
             log.append("abort-check")
-            checks[0] += 1
-            return abort_at is not None and checks[0] == abort_at
+            state["checks"] += 1
+            return state["abort_at"] is not None and state["checks"] == state["abort_at"]
 
         bo = BasicOptimizer(make_config(case, None, budget), ev)
         bo.set_results_callback(on_results)
         bo.set_abort_callback(want_abort)
-        per_run: list[tuple[int, int, int]] = []
-        for run in range(case.get("basic_runs", 3)):
+        sub = {**case, "basic_history": list(history)}
+        for run, kind in enumerate(history):
             ncalls, nlog = len(ev.calls), len(log)
-            checks[0] = 0
+            state.update({"checks": 0, "base": ncalls, "started": 0, "abort_at": int(kind[-1]) if kind.startswith("abort") else None,
+                          "crash_at": int(kind[-1]) if kind.startswith("crash") else None})
             if case["variant"] == "failures":
                 ev.fail = {(ncalls + case["fail_call"], 0, -1): [("obj", 0)]}
-            bo.run()
-            calls = len(ev.calls) - ncalls
+            crashed = False
+            try:
+                bo.run()
+            except RuntimeError as exc:
+                check("injected evaluator crash" in str(exc), "harness", f"unexpected RuntimeError {exc}", sub)
+                crashed = True
+            calls = state["started"]  # evaluator calls that were started (a crashing one included)
             n_res = log[nlog:].count("results")
             n_chk = log[nlog:].count("abort-check")
-            label = f"BasicOptimizer run {run + 1}" + (f", abort requested at check {abort_at}" if abort_at else "")
-            aborted = abort_at is not None and n_chk >= abort_at
+            label = f"BasicOptimizer run {run + 1} of history {list(history)}"
+            aborted = kind.startswith("abort") and n_chk >= state["abort_at"]
+            check(crashed == (kind.startswith("crash") and calls > state["crash_at"]), "harness", f"{label}: crash expectation", sub)
             check(n_chk == calls + (1 if aborted else 0), "delivery",
-                  f"{label}: {calls} evaluations but the abort callback (observer of START_EVALUATION) ran {n_chk} times", case)
-            check(n_res == calls, "delivery",
-                  f"{label}: {calls} evaluations but the results callback (observer of FINISHED_EVALUATION) ran {n_res} times", case)
-            if aborted:
-                check(bo.exit_code == OptimizerExitCode.USER_ABORT, "exit-code", f"{label}: exit code {bo.exit_code!r}", case)
-            else:
-                check(bo.exit_code != OptimizerExitCode.USER_ABORT, "exit-code", f"{label}: spurious USER_ABORT", case)
-            per_run.append((calls, n_res, n_chk))
+                  f"{label}: {calls} evaluations were started but the abort callback (observer of START_EVALUATION) ran {n_chk} times", sub)
+            check(n_res == calls - (1 if crashed else 0), "delivery",
+                  f"{label}: {calls - (1 if crashed else 0)} evaluations finished but the results callback (observer of FINISHED_EVALUATION) "
+                  f"ran {n_res} times", sub)
+            if not crashed:
+                if aborted:
+                    check(bo.exit_code == OptimizerExitCode.USER_ABORT, "exit-code", f"{label}: exit code {bo.exit_code!r}", sub)
+                else:
+                    check(bo.exit_code != OptimizerExitCode.USER_ABORT, "exit-code", f"{label}: spurious USER_ABORT", sub)
             points += 1
             interesting += run > 0
-        check(len(set(per_run)) == 1, "delivery", f"runs of the same BasicOptimizer object differ (evaluations, results callbacks, abort checks): {per_run}", case)
-        if abort_at is None:
-            reference = [per_run[0][0]]
-    del reference
     return {"points": points, "interesting": interesting, "emissions": 0}
 
 
